@@ -208,8 +208,8 @@ def exitH : Handler := fun inp impl => do
   let n ← inp.getObjValAs? Nat "hups"
   let endS ← inp.getObjValAs? String "end"
   let again := (inp.getObjValAs? String "again").toOption.getD ""
-  -- rush: the terminating event is sent right after the last SIGHUP. The prediction is the one for signals handled
-  -- in turn (`sequential`); a signal lost to the capacity-1 channel shows as a failure of its own class
+  -- rush: the terminating event is sent right after the last SIGHUP (one burst). The prediction is the same as for
+  -- signals handled in turn: the channel has room for the burst (`bursts_within_capacity_lose_nothing`)
   let rush := (inp.getObjValAs? Bool "rush").toOption.getD false && n > 0
   let ev : String → Except String Ev := fun s => match s with
     | "TERM" => .ok (.sig .term) | "INT" => .ok (.sig .int) | "exit" => .ok .exitCall | "fatal" => .ok .exitCall
